@@ -35,8 +35,47 @@ func analyzeFold(p *core.Program, fi *core.FuncInfo) *foldLoop {
 	body := fi.Decl.Body.List
 	// unwrap `if sz := len(b); sz == 0 { return 0 } else { ... }` and `if b == nil { return 0 }`
 	for len(body) > 0 {
-		ifs, ok := body[0].(*ast.IfStmt)
+		// a leading `n := len(bytes)` before the empty-input guard: keep it for the loop-bound check and
+		// look at the guard behind it
+		gi := 0
+		for gi < len(body) {
+			as, ok := body[gi].(*ast.AssignStmt)
+			if !ok || len(as.Rhs) != 1 {
+				break
+			}
+			call, ok := as.Rhs[0].(*ast.CallExpr)
+			if !ok {
+				break
+			}
+			if id, ok := call.Fun.(*ast.Ident); !ok || id.Name != "len" {
+				break
+			}
+			gi++
+		}
+		if gi >= len(body) {
+			break
+		}
+		ifs, ok := body[gi].(*ast.IfStmt)
 		if !ok {
+			break
+		}
+		if gi > 0 && ifs.Else == nil {
+			// keep the length definitions, drop the guard
+			nb := append([]ast.Stmt{}, body[:gi]...)
+			guardBody := ifs.Body
+			if len(guardBody.List) == 1 {
+				if rs, ok := guardBody.List[0].(*ast.ReturnStmt); ok && len(rs.Results) == 1 {
+					if tv, ok := info.Types[rs.Results[0]]; ok && tv.Value != nil && tv.Value.ExactString() == "0" {
+						if be, ok := ifs.Cond.(*ast.BinaryExpr); ok && be.Op == token.EQL {
+							out.EmptyGuard = "len0"
+							body = append(nb, body[gi+1:]...)
+						}
+					}
+				}
+			}
+			break
+		}
+		if gi > 0 {
 			break
 		}
 		ret0 := func(b *ast.BlockStmt) bool {
